@@ -68,3 +68,11 @@ pub fn crc32(data: &[u8]) -> u32 {
     digest.update(data);
     digest.finalize()
 }
+
+/// `RawValue::partial_cmp` (crate-private): how the reader compares a stored value with a key.
+pub fn raw_value_cmp(
+    stored: &crate::reader::RawValue,
+    key: &crate::Value,
+) -> Result<Option<std::cmp::Ordering>> {
+    stored.partial_cmp(key)
+}
